@@ -606,6 +606,29 @@ def solve_one(args):
                         pass
                 r2 = s2.check()
                 log.append(('z3-5.1(api) validate-candidate', str(r2), round(time.time() - t0, 3)))
+                if r2 == z3.unknown:
+                    # second attempt: also fix the candidate's (finite) interpretation of every uninterpreted function, so that
+                    # the quantified hypotheses become closed formulas the solver only has to evaluate
+                    try:
+                        for d in m.decls():
+                            if d.arity() == 0 or d.name().startswith(('fs!', 'fsd!', 'gsk!')):
+                                continue
+                            fi_ = m[d]
+                            if not isinstance(fi_, z3.FuncInterp):
+                                continue
+                            xs = [z3.Const(f'vx!{d.name()}!{i}', d.domain(i)) for i in range(d.arity())]
+                            body = fi_.else_value()
+                            if body is None:
+                                continue
+                            for k in range(fi_.num_entries() - 1, -1, -1):
+                                en = fi_.entry(k)
+                                cond = z3.And([xs[i] == en.arg_value(i) for i in range(d.arity())])
+                                body = z3.If(cond, en.value(), body)
+                            s2.add(z3.ForAll(xs, d(*xs) == body))
+                        r2 = s2.check()
+                        log.append(('z3-5.1(api) validate-candidate (function interpretations fixed)', str(r2), round(time.time() - t0, 3)))
+                    except Exception as ex:
+                        log.append(('validate-candidate (functions)', 'error:' + str(ex)[:120], 0))
                 if r2 == z3.sat:
                     return idx, 'sat', 'z3-5.1(api) ground-instances+validation', time.time() - t0, model_dict(s2.model()), log
                 cand = model_dict(m)
